@@ -614,6 +614,15 @@ def rule_move_text(ctx):
               b.where(0), bad_what="%d other use(s) of the move text, %d comparison(s)" % (len(uses), stats.get("compares", 0)))
 
 
+def rule_build_config(ctx):
+    """What the build configuration contributes to "cannot kill the engine": panics unwind (a panic on the search thread -
+    lock poisoning, a counter at its type's maximum - ends that thread, and the input loop keeps answering), instead of
+    aborting the process."""
+    cfg = ctx.ix.facts.get("cfg", {})
+    ctx.check(cfg.get("panic") == "Unwind", "build:panics-unwind", "this configuration is built with panic = unwind", "Cargo.toml",
+              bad_what="this configuration is built with panic = %s: any panic on the search thread now takes the whole engine down (the input loop dies with it)" % str(cfg.get("panic")).lower())
+
+
 def rule_io_and_exits(ctx):
     """uci_loop: the result of read_line is inspected (no unwrap), the loop exits on count 0 (end of input),
     on a read error, and on Quit."""
@@ -918,7 +927,7 @@ def rule_counter_widths(ctx):
 
 
 RULES = [("counter-widths", rule_counter_widths), ("scope", rule_scope), ("index", rule_index), ("arith", rule_arith), ("no-assert-on-input", rule_no_assert_on_input),
-         ("unwrap", rule_unwrap), ("boundary", rule_boundary), ("move-text", rule_move_text), ("io-exits", rule_io_and_exits), ("nonblocking", rule_nonblocking),
+         ("unwrap", rule_unwrap), ("boundary", rule_boundary), ("move-text", rule_move_text), ("build-config", rule_build_config), ("io-exits", rule_io_and_exits), ("nonblocking", rule_nonblocking),
          ("loops", rule_loops), ("errors-continue", rule_errors_continue)]
 # `position fen <valid FEN>` reaches the FEN loader's panic arms only for strings outside the alphabet; that the alphabet the
 # loader accepts is the whole valid one is C07's tables (a half-open `'a'..'h'` makes a valid FEN kill the input thread)
